@@ -20,3 +20,6 @@ package commonmark
 
 // verifYield is a no-op unless the package is built with the "verif" build tag.
 func verifYield(site string) {}
+
+// verifLimits returns its arguments unless the package is built with the "verif" build tag.
+func verifLimits(chunkSize, maxBlockSize int) (int, int) { return chunkSize, maxBlockSize }
